@@ -243,6 +243,16 @@ def gc_requests(run):
             if a[0] == "agg" and a[1].get("adt") == GCTASK:
                 out.append((b, c, a[1]["variant"], a))
                 run.touch(b)
+            else:
+                # the task was built earlier and kept in an Option (`let task = match ttl { Head(n) => Some(CheckHeadTTL{..}), _ => None }`)
+                inner = [y for o in list(q.origins(c.arg(1))) + [c.arg(1)] for y in walk(o) if y[0] == "agg" and y[1].get("adt") == GCTASK]
+                seen = set()
+                for y in inner:
+                    k = (y[1].get("variant"), fmt(y)[:200])
+                    if k not in seen:
+                        seen.add(k)
+                        out.append((b, c, y[1]["variant"], y))
+                        run.touch(b)
     return out
 
 
